@@ -196,20 +196,20 @@ Proof.
   intros m k le p Hwf. unfold num_to_raw.
   destruct k, p; cbn [raw_bits option_map to_type]; try reflexivity;
     unfold raw_to_num; cbv zeta; rewrite order_order, le_val_le_bytes; apply f_equal; apply f_equal.
-  - change (8 * Z.of_nat (nbytes Int8)) with 8. unfold wrap_u. apply wrap_s_mod8.
-  - change (8 * Z.of_nat (nbytes Uint8)) with 8. unfold wrap_u. apply Z.mod_mod. compute; discriminate.
+  - change (8 * Z.of_nat (nbytes Int8)) with 8. unfold wrap_u. rewrite !wrap_s_mod8. reflexivity.
+  - change (8 * Z.of_nat (nbytes Uint8)) with 8. unfold wrap_u. rewrite Z.mod_mod by (compute; discriminate). reflexivity.
   - change (8 * Z.of_nat (nbytes Uint8C)) with 8. apply Z.mod_small. pose proof (clamp8_range f). change (2 ^ 8) with 256. lia.
-  - change (8 * Z.of_nat (nbytes Int16)) with 16. unfold wrap_u. apply wrap_s_mod16.
-  - change (8 * Z.of_nat (nbytes Uint16)) with 16. unfold wrap_u. apply Z.mod_mod. compute; discriminate.
-  - change (8 * Z.of_nat (nbytes Int32)) with 32. unfold wrap_u. apply wrap_s_mod32.
-  - change (8 * Z.of_nat (nbytes Uint32)) with 32. unfold wrap_u. apply Z.mod_mod. compute; discriminate.
+  - change (8 * Z.of_nat (nbytes Int16)) with 16. unfold wrap_u. rewrite !wrap_s_mod16. reflexivity.
+  - change (8 * Z.of_nat (nbytes Uint16)) with 16. unfold wrap_u. rewrite Z.mod_mod by (compute; discriminate). reflexivity.
+  - change (8 * Z.of_nat (nbytes Int32)) with 32. unfold wrap_u. rewrite !wrap_s_mod32. reflexivity.
+  - change (8 * Z.of_nat (nbytes Uint32)) with 32. unfold wrap_u. rewrite Z.mod_mod by (compute; discriminate). reflexivity.
   - change (8 * Z.of_nat (nbytes Float32)) with 32. apply f_equal. apply bits32_roundtrip. apply to_f32c_wf.
   - change (8 * Z.of_nat (nbytes Float64)) with 64. simpl in Hwf.
     destruct (is_nan f) eqn:En.
     + destruct f; try discriminate En. vm_compute. reflexivity.
     + apply bits64_roundtrip. exact Hwf.
-  - change (8 * Z.of_nat (nbytes BigInt64)) with 64. unfold wrap_u. apply wrap_s_mod64.
-  - change (8 * Z.of_nat (nbytes BigUint64)) with 64. unfold wrap_u. apply Z.mod_mod. compute; discriminate.
+  - change (8 * Z.of_nat (nbytes BigInt64)) with 64. unfold wrap_u. rewrite !wrap_s_mod64. reflexivity.
+  - change (8 * Z.of_nat (nbytes BigUint64)) with 64. unfold wrap_u. rewrite Z.mod_mod by (compute; discriminate). reflexivity.
 Qed.
 
 (* the Numbers the harness (and any script) can supply are bit patterns: no side condition *)
